@@ -159,6 +159,21 @@ theorem generated_counts_renumbered (σ : Int → Int) (pids pids' types types' 
     rw [C10.generated_n_bifs pids types r ht F, C10.generated_n_bifs pids' types' r' ht' F]
     exact congrArg (fun n : Nat => some (n : Int)) (h.count_kids (fun n : Nat => decide (2 ≤ n)))
 
+/-- **renumbering the nodes does not change the generated `n_stems`**: a valid renumbering keeps the root at id 0 (`σ 0 = 0`: the library requires
+the root to be the first row) and the first row's type; the translated `LMeasure.n_stems` — the number of children of node 0 when that row is
+typed as soma, `Tree.soma`'s `ValueError` otherwise — then gives the same answer (the raising case included) on both tables -/
+theorem generated_n_stems_renumbered (σ : Int → Int) (pids pids' types types' : List Int) (h : Renumbered σ pids pids') (h0 : σ 0 = 0)
+    (hn : 0 < pids.length) (ht : types'.head? = types.head?) :
+    lm_n_stems (Sub.rangeI pids'.length) pids' types' = lm_n_stems (Sub.rangeI pids.length) pids types := by
+  have hn' : 0 < pids'.length := by rw [h.len]; exact hn
+  have a := C10.generated_n_stems pids types hn
+  have b := C10.generated_n_stems pids' types' hn'
+  have k := h.kids_len 0
+  rw [h0] at k
+  by_cases hs : types.head? = some Gen.Consts.type_soma
+  · rw [a.1 hs, b.1 (by rw [ht]; exact hs), k]
+  · rw [a.2 hs, b.2 (by rw [ht]; exact hs)]
+
 section field
 variable {K : Type} [Field K] [LinearOrder K] [IsStrictOrderedRing K] [Inhabited K]
 
